@@ -26,6 +26,15 @@ FAMILIES = [
                  rule="scripts 0,1 = fixed boundary suite (boundary ids, every stable io::ErrorKind, length-prefix edges, "
                       "non-canonical varints, reader errors); rest random enc/dec ops with str and u64 bodies; "
                       "non-trivial = contains a round trip of an error response, a decode to a message and a decode error"),
+    trace.Family("c15json", ["--scripts=400", "--len=40"], ["--scripts=20000", "--len=40"], nontrivial=nt_bin,
+                 rule="script 0 = fixed suite (boundary ids, every stable io::ErrorKind, every ASCII byte in a body, long strings, "
+                      "hand-written documents for each reader rule incl. those of the Lean examples); rest random: enc of messages "
+                      "with escape-heavy/unicode bodies, dec of real encodings, of hand-assembled documents (member order, whitespace, "
+                      "omitted defaulted members, unknown members with arbitrary values incl. floats / non-Unicode strings / nesting "
+                      "> 128, \\u escapes and surrogate pairs, structs as arrays, unit variant as map; missing / repeated members, "
+                      "wrong types, out-of-range and non-integer numbers, bad variants, non-UTF-8), of byte-level mutations of both, "
+                      "of the other type's documents and of random bytes; non-trivial = contains a round trip of an error response, "
+                      "a decode to a message and a decode error"),
     trace.Family("c15frame", ["--scripts=1000", "--len=40"], ["--scripts=20000", "--len=60"], nontrivial=nt_frame,
                  rule="real FramedRead<LengthDelimitedCodec> fed PRNG-chosen chunks (0- and 1-byte chunks, stutter Pendings, "
                       "cuts inside header/body, oversize lengths); non-trivial = >= 2 frames, a chunk ending mid-frame, and an eof/error"),
@@ -38,11 +47,16 @@ ASSUMPTIONS = [
     "bincode 1.3 DefaultOptions / serde derive schema as modelled (validated byte-exactly by the correspondence runs)",
     "64-bit usize; process uptime < 2^40 s (Instant + Duration overflow band excluded; that panic is C16's subject)",
     "message bodies satisfy the prefix-free round-trip hypothesis (String and u64 instances proved)",
+    "serde_json 1.0 compact writer / reader grammar and the serde derive JSON schema as modelled in Wire/Json.lean "
+    "(validated byte-exactly by the c15json correspondence runs; no float or signed integer occurs in the schema)",
+    "c15json generator limits: no digit run with a value in [2^63 - 2^40 - 8, 2^63) (Instant overflow band, as for bincode); "
+    "nesting of skipped values <= 1000 (serde_json skips iteratively without limit, the Lean parser recurses)",
 ]
 
 PARTIAL = [
-    "JSON text-level round trip is covered by correspondence only (no Lean JSON parser): the c15e2e family sends every "
-    "message kind through the real JSON codec and compares what arrives",
+    "JSON: the round trip is proved at text level for every value and for both message types (Props/C15Json.lean); that the "
+    "Lean parser accepts exactly what serde_json accepts on documents the writer does not produce (malformed or "
+    "foreign-writer input) is validated by the c15json correspondence runs, not proved",
     "monitor-acceptance theorems exist for neither the frame nor the pipe monitor (validated empirically); the stream "
     "theorems are stated directly on the decoder/queue models",
 ]
